@@ -24,9 +24,10 @@ func init() {
 			"(6) SaveManifest does not re-lock its own mutex (no recursive RLock); (7) destructive file operations are exactly the classified sites and nothing is written or removed before the manifest is loaded. " +
 			"Added after blind round 6: an entry joins Manifest.Entries only behind a successful validation of its configuration (Save validates the current entry but writes them all; the loader takes the last one). " +
 			"Added after blind round 7: Config.Update runs the caller's function with Config.mu held exclusively; NewManifest substitutes the defaults only for a nil configuration. " +
-			"Added after blind round 8: in NewManifest the entry Current points to is the entry listed in Entries (Save validates the one and writes the other).",
+			"Added after blind round 8: in NewManifest the entry Current points to is the entry listed in Entries (Save validates the one and writes the other). " +
+			"Added after blind round 10: no component outside pkg/config assigns a field of the shared configuration object (what SaveManifest writes back is what was loaded or set through Update).",
 		NotDecided: "every assignment around the boundaries (value-level), floating-point formatting corner cases, crash during save (needs fault injection), fields that have no documented constraint.",
-		Rules:      []func(*Ctx, *Reporter){ruleC20Save, ruleC20Load, ruleC20Default, ruleC20Types, ruleC20Constraints, ruleC20Reentrancy, ruleDestructiveOps, ruleManifestEntriesValidated, ruleConfigUpdateExclusive, ruleDefaultsOnlyForNil, ruleManifestCurrentIsListed},
+		Rules:      []func(*Ctx, *Reporter){ruleC20Save, ruleC20Load, ruleC20Default, ruleC20Types, ruleC20Constraints, ruleC20Reentrancy, ruleDestructiveOps, ruleManifestEntriesValidated, ruleConfigUpdateExclusive, ruleDefaultsOnlyForNil, ruleManifestCurrentIsListed, ruleConfigWrittenOnlyInConfigPkg},
 	})
 }
 
